@@ -344,6 +344,44 @@ def main():
                             'cfg': {'lmtp': False, 'pipelining': True, 'kind': 'smtp', 'deadline': 0, 'stages': ['dns']}, 'ev': ev},
                            separators=(',', ':')) + '\n')
         n += 1
+    # two attempts for the same domain at the same time, the domain not looked up before and the resolver taking its time: each
+    # attempt is judged by what the resolver answers, not by what happens to be cached while the answer is on its way
+    import gevent as _gevent
+    for name in ('mx1', 'mx3', 'a_only'):
+        idx += 1
+        if idx % nshards != shard:
+            continue
+        answers, hosts = dns_cases[name]
+        r = rdrv.RelayRun(False, True, [{}])
+
+        class SlowAns(Ans):
+            def get(self):
+                for _ in range(4):
+                    _gevent.sleep(0)          # the answer is on its way: other greenlets run
+                return Ans.get(self)
+
+        class StubResolver(object):
+            @classmethod
+            def query(cls, qname, qtype, answers=answers):
+                return SlowAns(answers[qtype])
+        mxmod.DNSResolver = StubResolver
+        relay = mxmod.MxSmtpRelay(socket_creator=r.creator, ehlo_as='relay.example', connect_timeout=5, command_timeout=10, data_timeout=25)
+        r.relay = relay
+        r.attempt(1, 1)
+        r.attempt(2, 1)
+        ev = r.run_to_end()
+        for req in (1, 2):
+            conns = [e['conn'] for e in ev if e['t'] == 'peer' and e['stage'] == 'mail' and e.get('m') == req]
+            mine = [{'t': 'call', 'req': req, 'nrcpt': 1, 'now': 1000},
+                    {'t': 'peer', 'stage': 'dns', 'i': 0, 'act': 'code', 'code': 250, 'conn': 0, 'trans': 0, 'now': 1000}]
+            mine += [e for e in ev if e['t'] == 'peer' and conns and e['conn'] == conns[0] and e['stage'] != 'quit']
+            mine += [e for e in ev if e['t'] == 'ret' and e['req'] == req]
+            mine += [e for e in ev if e['t'] == 'end']
+            stats['executions'] += 1
+            f.write(json.dumps({'id': shard + n * nshards, 'cls': 'mx-concurrent-' + name,
+                                'cfg': {'lmtp': False, 'pipelining': True, 'kind': 'smtp', 'deadline': 0, 'stages': ['dns']}, 'ev': mine},
+                               separators=(',', ':')) + '\n')
+            n += 1
     # recipient without a domain: permanent
     if shard == 2:
         from slimta.envelope import Envelope as _E
